@@ -520,6 +520,33 @@ pub fn random(o: &Opts) -> R<()> {
                 }
             }
         }
+        // two constructors of one kind in one class that share one component variable and differ in the other,
+        // with the evidence about the differing component split over the two variables
+        if i % 11 == 7 && nv >= 5 {
+            js.clear();
+            let (v, w, shared, a, b) = (0usize, 1usize, 2usize, 3usize, 4usize);
+            let mk = |x: usize, kind: usize| match kind {
+                0 => TE::mapping(tv(x), tv(shared)),
+                1 => TE::mapping(tv(shared), tv(x)),
+                _ => TE::dyn_array(tv(x)),
+            };
+            let kind = (i / 11) % 3;
+            js.push((v, mk(a, kind)));
+            if rng.gen_bool(0.5) {
+                js.push((v, mk(b, kind)));
+            } else {
+                js.push((w, mk(b, kind)));
+                js.push((v, TE::eq(tv(w))));
+            }
+            let (ea, eb) = match rng.gen_range(0..4) {
+                0 => (TE::word(None, WordUse::UnsignedNumeric), TE::address()),
+                1 => (TE::word(Some(160), WordUse::Bytes), TE::address()),
+                2 => (TE::word(None, WordUse::Numeric), TE::word(Some(64), WordUse::SignedNumeric)),
+                _ => (TE::bool(), TE::address()), // contradictory
+            };
+            js.push((a, ea));
+            js.push((b, eb));
+        }
         // two long chains of constructed types that meet at the top: x0 ~ y0, x_i = C(x_{i+1}), y_i = C(y_{i+1});
         // the equality of the components has to travel all the way down, one level per round
         if i % 11 == 4 && nv >= 6 {
@@ -633,12 +660,22 @@ pub fn determinism(o: &Opts) -> R<()> {
         let mut c: Vec<u8> = vec![0x60, 0x00, 0x54]; // sload(0)
         let reads = 2 + i % 2;
         for k in 0..reads {
-            let off = [0u8, 8, 16, 24, 160][(i + k) % 5];
+            // every third program: all the reads start at the same bit and differ in width
+            let off = if i % 3 == 2 { [0u8, 8, 160][(i / 3) % 3] } else { [0u8, 8, 16, 24, 160][(i + k) % 5] };
             c.push(0x80); // dup
             if off > 0 {
                 c.extend([0x60, off, 0x1c]);
             }
-            c.extend([0x60, 0xff, 0x16, 0x60, 5 + k as u8, 0x55]);
+            if i % 3 == 2 {
+                match k % 3 {
+                    0 => c.extend([0x60, 0xff, 0x16]),
+                    1 => c.extend([0x61, 0xff, 0xff, 0x16]),
+                    _ => c.extend([0x63, 0xff, 0xff, 0xff, 0xff, 0x16]),
+                }
+            } else {
+                c.extend([0x60, 0xff, 0x16]);
+            }
+            c.extend([0x60, 5 + k as u8, 0x55]);
         }
         c.push(0x50);
         match i % 3 {
